@@ -143,3 +143,15 @@ Theorem C06_inflight_terminates : forall W (f : nat -> state) (ls : nat -> label
   (forall n, step W (f n) (ls n) = Some (f (S n)) /\ inflight (f n) (ls n)) -> False.
 Proof. exact inflight_terminates. Qed.
 Print Assumptions C06_inflight_terminates.
+
+(* a Dependency object used again for a job submitted again after a failure (36bcb7f: the recorded status is
+   not reset when the object is attached): the registration of a dependency whose object still says OK, the
+   token being available, leaves the job asleep with unsatisfied = 1; with the status starting from WAIT
+   (fresh object, or fixes/C06-5.diff) the job is READY and goes to its start *)
+Theorem C06_reused_dependency_refuted :
+  (let r := reg_stale [DOK] [DOK] in
+   uns r = 1 /\ st r = WAITING /\ ev r = false /\ pc (fst (main_loop_l r)) = PAwaitReady) /\
+  (let r := reg_stale [DWAIT] [DOK] in
+   uns r = 0 /\ st r = READY /\ pc (fst (main_loop_l r)) = PExt ALockIn).
+Proof. exact reused_dependency_refuted. Qed.
+Print Assumptions C06_reused_dependency_refuted.
